@@ -80,7 +80,7 @@ impl WorkerState {
             } else {
                 life_time
             };
-            Some(limit - life_time)
+            Some(limit.saturating_sub(life_time))
         } else {
             None
         }
